@@ -352,6 +352,7 @@ def run(args):
                      '(configuration, element class, shape, public?)')
     n = int((400 if args.tier == 'quick' else 20000) * args.scale)
     cases = [(args.seed, i) for i in range(n)]
+    cases = core.replay_cases(args, cases)
     B = 8
     batches = [cases[k:k + B] for k in range(0, len(cases), B)]
     harness = []
